@@ -238,6 +238,8 @@ struct CredRt {
 
 struct PresRt {
     msg: Option<Message>,
+    /// the holder's output exactly as returned (delivered verbatim when nothing was faulted)
+    raw: Option<String>,
     cred: usize,
     kb: Option<KbArgs>,
     honest: bool,
@@ -381,7 +383,7 @@ impl<'a> Exec<'a> {
         for (pi, p) in scn.pres.iter().enumerate() {
             match p {
                 PresSpec::Holder { cred, selection, kb } => {
-                    let mut rt = PresRt { msg: None, cred: *cred, kb: kb.clone(), honest: true };
+                    let mut rt = PresRt { msg: None, raw: None, cred: *cred, kb: kb.clone(), honest: true };
                     if *cred >= self.creds.len() {
                         self.rep.harness_error = Some(format!("pres {} names cred {}", pi, cred));
                         return;
@@ -401,6 +403,7 @@ impl<'a> Exec<'a> {
                         self.c07(&out, "present", Base::Pres(pi), None);
                         if let Out::Ok(s) = &out {
                             rt.msg = Message::parse(s, fmt);
+                            rt.raw = Some(s.clone());
                         } else {
                             self.rep.count("presentations_refused");
                         }
@@ -412,7 +415,7 @@ impl<'a> Exec<'a> {
                         self.rep.harness_error = Some(format!("pres {} names cred {}", pi, cred));
                         return;
                     }
-                    let mut rt = PresRt { msg: None, cred: *cred, kb: None, honest: false };
+                    let mut rt = PresRt { msg: None, raw: None, cred: *cred, kb: None, honest: false };
                     if let Some(m) = &self.creds[*cred].msg {
                         let mut n = m.clone();
                         n.disclosures = picks.iter().filter_map(|i| m.disclosures.get(*i).cloned()).collect();
@@ -433,6 +436,7 @@ impl<'a> Exec<'a> {
         // 4. cases
         if scn.check == "C10" || scn.check == "C07" {
             self.holder_side_c10();
+            self.holder_side_c10_faulted();
         }
         for (idx, case) in scn.cases.iter().enumerate() {
             let expanded = self.expand(case);
@@ -696,8 +700,35 @@ impl<'a> Exec<'a> {
         serde_json::to_value(&s).unwrap_or(Value::Null)
     }
 
+    /// The library's own output for this base message and the format it was produced in.
+    fn raw_of(&self, b: &Base) -> Option<(String, Fmt)> {
+        match b {
+            Base::Cred(i) => {
+                let c = self.creds.get(*i)?;
+                if c.byz {
+                    return None;
+                }
+                Some((c.wire.clone()?, c.fmt))
+            }
+            Base::Pres(i) => {
+                let p = self.pres.get(*i)?;
+                Some((p.raw.clone()?, self.creds.get(p.cred)?.fmt))
+            }
+        }
+    }
+
     fn deliver(&mut self, m: &Message, case: &Case, fmt: Fmt) -> Option<(String, VerifyOut)> {
+        // an unfaulted message travelling in the format it was produced in is delivered verbatim
+        // (byte for byte what the issuer / holder returned), not re-serialised by the gateway
+        let verbatim = match (self.raw_of(&case.base), self.base_msg(&case.base)) {
+            (Some((raw, native)), Some((b, _, _))) if native == fmt && &b == m && case.extra.is_empty() && case.kb_enc == KbEnc::Absent => Some(raw),
+            _ => None,
+        };
+        if verbatim.is_some() {
+            self.rep.count("probe.delivered_verbatim_library_output");
+        }
         let mut s = match fmt {
+            _ if verbatim.is_some() => verbatim.unwrap_or_default(),
             Fmt::Compact => {
                 if !m.compact_expressible() {
                     return None;
@@ -1044,7 +1075,7 @@ impl<'a> Exec<'a> {
         let payload = world::payload_of(m);
         let cnf_key = payload.as_ref().and_then(|p| p.get("cnf")).and_then(|c| c.get("jwk")).and_then(keys::key_id_of_jwk);
         let Some(cnf_key) = cnf_key else { return Some("no_cnf".into()) };
-        if rec.key != cnf_key {
+        if keys::base(&rec.key) != cnf_key {
             return Some("kb_signed_by_other_key".into());
         }
         if keys::family_of_alg(&rec.alg) != &cnf_key[..2] {
@@ -1272,6 +1303,96 @@ impl<'a> Exec<'a> {
                     if !out2.is_panic() {
                         self.push_c10_holder(pi, "one holder presents, the other refuses", json!({"first_ok": first.is_some(), "second": out2.describe()}));
                     }
+                }
+            }
+        }
+    }
+
+    /// C10, holder side, tampered variants: the final message of a fault case, expressed in both
+    /// forms, is handed to two fresh real holders with the same selection; they must behave alike
+    /// (both refuse, or both present the same issuer-signed JWT and disclosure list).
+    fn holder_side_c10_faulted(&mut self) {
+        let scn = self.scn;
+        let mut done = 0;
+        for (ci, case) in scn.cases.iter().enumerate() {
+            if done >= 10 {
+                break;
+            }
+            if case.expand.is_some() || !case.wire.is_empty() || case.faults.is_empty() {
+                continue;
+            }
+            let Some((base, cred_idx, _)) = self.base_msg(&case.base) else { continue };
+            let mut m = base.clone();
+            let toks = self.tokens.clone();
+            let now = seams::clock_s();
+            let mut any = false;
+            for f in &case.faults {
+                any |= faults::apply(f, &mut m, &toks, &mut self.w, now);
+            }
+            if !any || !m.transcodable() {
+                continue;
+            }
+            // the selection of a presentation made from this credential, if there is one
+            let selection: Map<String, Value> = scn
+                .pres
+                .iter()
+                .find_map(|p| match p {
+                    PresSpec::Holder { cred, selection, .. } if *cred == cred_idx => Some(selection.clone()),
+                    _ => None,
+                })
+                .unwrap_or_default();
+            let mut outs: Vec<(Fmt, String, Option<Message>, bool)> = Vec::new();
+            for f in [Fmt::Compact, Fmt::Json] {
+                let Some(wm) = m.serialize(f) else { continue };
+                let h = self.w.holder_new(self.n_holder, &wm, f);
+                self.c07(&h, "holder_new", case.base.clone(), Some(case));
+                let o = match &h {
+                    Out::Ok(h) => {
+                        let o = self.w.present(self.n_holder, h, &selection, None);
+                        self.c07(&o, "present", case.base.clone(), Some(case));
+                        o
+                    }
+                    Out::Err { variant, msg } => Out::Err { variant: variant.clone(), msg: msg.clone() },
+                    Out::Panic(p) => Out::Panic(p.clone()),
+                };
+                outs.push((f, o.describe(), o.ok().and_then(|s| Message::parse(s, f)), o.is_panic()));
+            }
+            if outs.len() != 2 || outs[0].3 || outs[1].3 {
+                continue;
+            }
+            done += 1;
+            self.rep.evaluations += 1;
+            self.rep.count("oracle.c10.holder_on_tampered_compared");
+            if scn.check != "C10" {
+                continue;
+            }
+            let why = match (&outs[0].2, &outs[1].2) {
+                (Some(a), Some(b)) => {
+                    if a.jwt() != b.jwt() {
+                        Some("holders built from the two forms of a tampered message forward different issuer-signed JWTs")
+                    } else if a.disclosures != b.disclosures {
+                        Some("holders built from the two forms of a tampered message select different disclosures")
+                    } else {
+                        self.nontrivial.insert(hash_str(&format!("holder-tampered|{}", a.to_compact())));
+                        None
+                    }
+                }
+                (None, None) => None,
+                _ => Some("one holder accepts a tampered message and presents, the other refuses"),
+            };
+            if let Some(why) = why {
+                let sig = format!("c10:holder:{}", why);
+                if self.sigs_seen.insert(sig.clone()) {
+                    let mut red = scn.clone();
+                    red.cases = vec![scn.cases[ci].clone()];
+                    self.rep.violations.push(Violation {
+                        property: "C10".into(),
+                        clause: "holders-agree".into(),
+                        signature: sig,
+                        trigger: BTreeMap::new(),
+                        detail: json!({"why": why, "compact": outs[0].1, "json": outs[1].1, "compact_jwt": outs[0].2.as_ref().map(|m| m.jwt()), "json_jwt": outs[1].2.as_ref().map(|m| m.jwt())}),
+                        scenario: serde_json::to_value(&red).unwrap_or(Value::Null),
+                    });
                 }
             }
         }
